@@ -23,7 +23,7 @@ import time
 
 import vlib
 
-PINS = ["flat_refines_boxed", "flat_no_bug_error", "flat_push_total", "flat_exec_order_eq", "flat_accesses_ok",
+PINS = ["flat_refines_boxed", "flat_geometry_ok", "flat_no_bug_error", "flat_push_total", "flat_exec_order_eq", "flat_accesses_ok",
         "align_ptr_is_round_up", "up_is_least_multiple", "req_bounds_consumption", "expand_size_is_next_pow2"]
 Q_FILES = ["Q/Arith.v", "Q/MemProofs.v", "Q/FlatProofs.v", "Q/SysProofs.v", "Q/FlatSafety.v", "Props/C17.v"]
 COQ_TARGETS = ["Q/Extract.vo", "Props/C17.vo"]
@@ -66,11 +66,12 @@ class Geo:
         self.items = []   # tags pending, in order
 
     def push(self, n, a, newbase):
-        """returns True iff this push expands"""
+        """returns 0: fits, 1: expands (old buffer empty or none), 2: expands and chains the old buffer"""
         req = req_spec(n, a)
-        exp = req > self.cap - self.len
+        exp = 1 if req > self.cap - self.len else 0
         if exp:
             old = self.len != 0
+            exp = 2 if old else 1
             req2 = req + 32 if old else req
             self.cap = npow2(max(max(self.cap, req2) + 1, 1024))
             self.base = newbase
@@ -158,10 +159,8 @@ class CaseB:
         g = self.geo[q]
         exp = g.push(n, al, base)
         g.items.append(tag)
-        if exp:
-            self.features.add("expand")
-            if g.len > 32 + 0 and len(g.items) > 1 and g.len >= 32:
-                pass
+        if exp == 2:
+            self.features.add("chain")
         return exp
 
     # -- ops
@@ -457,7 +456,7 @@ def generate(seed, tier):
             if boundary <= 2048:
                 classes = CLASSES
             else:
-                k = {4096: 90, 8192: 40, 16384: 24, 32768: 14, 65536: 8}[boundary]
+                k = {4096: 288, 8192: 120, 16384: 64, 32768: 32, 65536: 16}[boundary]
                 classes = rng.sample(CLASSES, k)
             extra = 0
         for (s, a) in classes:
@@ -491,7 +490,7 @@ def generate(seed, tier):
                 idx += 1
                 add(gen_straddle(rng, stats, "sweep-%d-%d-%d-r%d-%d" % (boundary, s, a, r, idx), boundary, s, a, r, rng.randrange(0, 1000)))
     # random sequences
-    nrand = 2500 if thorough else 500
+    nrand = 6000 if thorough else 1500
     for i in range(nrand):
         heavy = i % 3 == 0
         nops = rng.choice([5, 10, 20, 40, 80] if not heavy else [10, 30, 60, 120])
@@ -573,6 +572,29 @@ def evaluate(tools, path, timeout=600):
             return None
         return r[1].get(name)
 
+    # the Coq monitor geom_ok (extracted) on the REAL trace
+    mon_fail = {}
+    if tools.driver is not None and ref is not None:
+        tmp = path + ".realtrace"
+        with open(tmp, "w") as f:
+            for n in names:
+                t = ref[1].get(n)
+                if t:
+                    f.write(t + "\n")
+        rc, out = sh([tools.driver, "monitor", tmp], timeout)
+        bad_lines = [int(m.group(1)) for m in re.finditer(r"MONITOR geom_ok false line (\d+)", out)]
+        if bad_lines:
+            lines = open(tmp).read().split("\n")
+            for bl in bad_lines:
+                k = bl - 1
+                while k >= 0 and not lines[k].startswith("case "):
+                    k -= 1
+                if k >= 0:
+                    mon_fail.setdefault(lines[k][5:].strip(), "monitor geom_ok (Coq, extracted) is false on the REAL trace: " + lines[bl - 1])
+        try:
+            os.remove(tmp)
+        except OSError:
+            pass
     validated = 0
     for key in ("flat-debug", "flat-release", "boxed-debug", "boxed-release"):
         r = runs[key]
@@ -598,6 +620,8 @@ def evaluate(tools, path, timeout=600):
             elif " BAD" in fd:
                 why = "real flat queue: a closure read back bytes that differ from what was pushed"
         if why is None:
+            why = mon_fail.get(n)
+        if why is None:
             for l in fd.split("\n"):
                 if l.startswith("geom "):
                     w = l.split()
@@ -618,29 +642,54 @@ def evaluate(tools, path, timeout=600):
                 validated += 1
         if why is not None:
             fails[n] = why
-    # monitor on the real trace through the extracted predicate
-    if tools.driver is not None and ref is not None:
-        tmp = path + ".realtrace"
-        with open(tmp, "w") as f:
-            for n in names:
-                t = ref[1].get(n)
-                if t:
-                    f.write(t + "\n")
-        rc, out = sh([tools.driver, "monitor", tmp], timeout)
-        bad_lines = [int(m.group(1)) for m in re.finditer(r"MONITOR geom_ok false line (\d+)", out)]
-        if bad_lines:
-            lines = open(tmp).read().split("\n")
-            for bl in bad_lines:
-                k = bl - 1
-                while k >= 0 and not lines[k].startswith("case "):
-                    k -= 1
-                if k >= 0:
-                    fails.setdefault(lines[k][5:].strip(), "monitor geom_ok (Coq, extracted) is false on the real trace: " + lines[bl - 1])
-        try:
-            os.remove(tmp)
-        except OSError:
-            pass
-    return fails, validated, len(names)
+    return fails, validated, len(names), measure(path, names, ref[1] if ref else {})
+
+
+def measure(path, names, real):
+    """coverage measured on the REAL flat trace: for every top-level push, (cap before, N, A, cap - len before) and
+       whether the buffer was replaced; for every case the number of closures run / dropped"""
+    points, expansions, runs, drops = set(), {}, 0, 0
+    defs = {}
+    cur = None
+    for line in open(path):
+        w = line.split()
+        if not w:
+            continue
+        if w[0] == "case":
+            cur = w[1]
+            defs[cur] = {}
+        elif w[0] == "def":
+            defs[cur][w[1]] = (rnd(int(w[2]), int(w[3])), int(w[3]))
+    for n in names:
+        t = real.get(n)
+        if not t:
+            continue
+        geo = {}
+        pend = None
+        for l in t.split("\n"):
+            w = l.split()
+            if not w:
+                continue
+            if w[0] == "op":
+                pend = None
+                if w[2] == "push":
+                    q = w[3]
+                    nn, aa = (16, 8) if w[4] == "1" else defs[n].get(w[5], (0, 1))
+                    pend = (q, nn, aa, geo.get(q, (0, 0, 0)))
+            elif w[0] == "geom":
+                g = (int(w[2]), int(w[3]), int(w[4]))
+                if pend and pend[0] == w[1]:
+                    b, ln, cap = pend[3]
+                    points.add((cap, pend[1], pend[2], cap - ln))
+                    if g[2] != cap:
+                        expansions[(cap, g[2])] = expansions.get((cap, g[2]), 0) + 1
+                    pend = None
+                geo[w[1]] = g
+            elif w[0] == "run":
+                runs += 1
+            elif w[0] == "drop":
+                drops += 1
+    return {"points": points, "expansions": expansions, "runs": runs, "drops": drops}
 
 
 def case_blocks(text):
@@ -676,7 +725,7 @@ def shrink(tools, block, budget_s=90):
         p = os.path.join(tmpdir, "c%d.cases" % counter[0])
         with open(p, "w") as f:
             f.write("\n".join(head + cand_ops + ["end"]) + "\n")
-        fl, _, _ = evaluate(tools, p, timeout=60)
+        fl = evaluate(tools, p, timeout=60)[0]
         os.remove(p)
         return bool(fl)
 
@@ -718,7 +767,7 @@ def shrink(tools, block, budget_s=90):
     p = os.path.join(tmpdir, "final.cases")
     with open(p, "w") as f:
         f.write(cand)
-    fl, _, _ = evaluate(tools, p, timeout=60)
+    fl = evaluate(tools, p, timeout=60)[0]
     shutil.rmtree(tmpdir, ignore_errors=True)
     if fl:
         return cand, list(fl.values())[0]
@@ -824,14 +873,20 @@ def write_shards(cases, d, nshards):
     return paths
 
 
-def run_files(tools, paths):
+def run_files(tools, paths, cover=None):
     fails, validated, total = {}, 0, 0
     with concurrent.futures.ThreadPoolExecutor(max_workers=max(2, vlib.NCPU // 2)) as ex:
-        for (fl, v, n), p in zip(ex.map(lambda p: evaluate(tools, p), paths), paths):
+        for (fl, v, n, m), p in zip(ex.map(lambda p: evaluate(tools, p), paths), paths):
             for k, why in fl.items():
                 fails[k] = (why, p)
             validated += v
             total += n
+            if cover is not None:
+                cover["points"] |= m["points"]
+                for k, c in m["expansions"].items():
+                    cover["expansions"][k] = cover["expansions"].get(k, 0) + c
+                cover["runs"] += m["runs"]
+                cover["drops"] += m["drops"]
     return fails, validated, total
 
 
@@ -908,7 +963,8 @@ def _run(prop, tier, seed, ev, tools, rundir):
     # corpus first
     corpus_dir = os.path.join(vlib.ROOT, "corpus", "q")
     corpus = sorted(os.path.join(corpus_dir, f) for f in os.listdir(corpus_dir) if f.endswith(".cases")) if os.path.isdir(corpus_dir) else []
-    cfails, cval, ctot = run_files(tools, corpus)
+    cover = {"points": set(), "expansions": {}, "runs": 0, "drops": 0}
+    cfails, cval, ctot = run_files(tools, corpus, cover)
     vlib.log("[C17] corpus: %d cases, %d validated against the model, %d failing" % (ctot, cval, len(cfails)))
     if cfails:
         ev.cov["problems"] = problems
@@ -919,7 +975,7 @@ def _run(prop, tier, seed, ev, tools, rundir):
     paths = write_shards(cases, rundir, vlib.NCPU * 2)
     vlib.log("[C17] generated %d cases (%d KiB) in %.1fs" % (len(cases), sum(len(c[1]) for c in cases) // 1024, time.time() - tg))
     tr = time.time()
-    fails, validated, total = run_files(tools, paths)
+    fails, validated, total = run_files(tools, paths, cover)
     vlib.log("[C17] ran %d cases in %.1fs: %d validated against the model, %d failing" % (total, time.time() - tr, validated, len(fails)))
     distinct = set()
     nontrivial = 0
@@ -927,14 +983,14 @@ def _run(prop, tier, seed, ev, tools, rundir):
         h = hashlib.sha256(text.split("\n", 1)[1].encode()).hexdigest()
         if h not in distinct:
             distinct.add(h)
-            if "expand" in feats or "nested" in feats or "drop-nonempty" in feats:
+            if "chain" in feats or "nested" in feats or "drop-nonempty" in feats:
                 nontrivial += 1
     ev.cov["evaluations"] = total + ctot
     ev.cov["distinct_nontrivial"] = nontrivial
     ev.cov["rule"] = ("cases are generated from one PRNG(seed): per-alignment class sweeps, boundary-straddle cases (a buffer of capacity "
                       "1 KiB..64 KiB filled to cap - r, then the target closure pushed directly, boxed, or by a running closure of another queue), "
                       "full residual sweeps r in {0,8,..,req+8}, random multi-queue sequences with nested scripts; a case is non-trivial if it "
-                      "contains a buffer expansion, a nested push, or a drop of a non-empty queue; distinct = distinct op/def text")
+                      "contains a buffer expansion that chains a non-empty old buffer, a nested push, or a drop of a non-empty queue; distinct = distinct op/def text")
     ev.cov["traces_validated_against_impl"] = validated + cval
     ev.cov["samples"] = [cases[i][1] for i in (0, len(cases) // 2, len(cases) - 1) if len(cases[i][1]) < 6000][:3] or [cases[-1][1][:4000]]
     tset = stats["targets"]
@@ -944,13 +1000,21 @@ def _run(prop, tier, seed, ev, tools, rundir):
         "closure_classes_used": len(stats["class"]), "closure_classes_total": len(CLASSES),
         "closure_defs_by_alignment": {str(a): sum(v for (s, a2), v in stats["class"].items() if a2 == a) for a in A_LIST},
         "closure_defs_by_size_bucket": {b: sum(v for (s, a), v in stats["class"].items() if lo <= rnd(s, a) <= hi)
-                                        for b, lo, hi in (("0", 0, 0), ("1-8", 1, 8), ("9-64", 9, 64), ("65-512", 65, 512), ("513-4096", 513, 4096), (">4096", 4097, 1 << 30))},
+                                        for b, lo, hi in (("0", 0, 0), ("1-8", 1, 8), ("9-64", 9, 64), ("65-512", 65, 512), ("513-4096", 513, 4096))},
         "base_residues_mod_128": {str(k): v for k, v in sorted(stats["residue"].items())},
         "straddle_targets_by_boundary": {str(k): v for k, v in sorted(stats["boundary"].items())},
-        "distinct_(cap,size,align,residual)_targets": len(tset),
-        "targets_expanding": sum(1 for (c, n, a, r) in tset if req_spec(n, a) > r),
-        "targets_fitting": sum(1 for (c, n, a, r) in tset if req_spec(n, a) <= r),
-        "targets_exact_fit(req == residual)": sum(1 for (c, n, a, r) in tset if req_spec(n, a) == r),
+        "planned_distinct_(cap,size,align,residual)_targets": len(tset),
+        "planned_targets_reached_in_real_trace": len([t for t in tset if t in cover["points"]]),
+        "measured_on_real_trace": {
+            "distinct_(cap_before,size,align,cap-len_before)_push_points": len(cover["points"]),
+            "push_points_by_capacity": {str(c): len([1 for p in cover["points"] if p[0] == c]) for c in sorted({p[0] for p in cover["points"]})},
+            "distinct_residuals_by_capacity": {str(c): len({p[3] for p in cover["points"] if p[0] == c}) for c in sorted({p[0] for p in cover["points"]})},
+            "push_points_expanding": len([1 for (c, n, a, r) in cover["points"] if req_spec(n, a) > r]),
+            "push_points_exact_fit(req == cap-len)": len([1 for (c, n, a, r) in cover["points"] if req_spec(n, a) == r]),
+            "push_points_one_step_short(req == cap-len+8)": len([1 for (c, n, a, r) in cover["points"] if req_spec(n, a) == r + 8]),
+            "buffer_growth_events(cap_before->cap_after)": {"%d->%d" % k: v for k, v in sorted(cover["expansions"].items())},
+            "closures_run": cover["runs"], "closures_dropped_unrun": cover["drops"],
+        },
     }
     ev.cov["wall_breakdown_s"] = {"build": round(tg - t0, 1), "generate": round(tr - tg, 1), "run": round(time.time() - tr, 1)}
     if fails:
@@ -994,7 +1058,7 @@ def replay(prop, path):
     if tools.hdbg is None or tools.hrel is None:
         vlib.violation(prop, path, no_input=True)
         return 1
-    fails, validated, total = evaluate(tools, path)
+    fails, validated, total, _ = evaluate(tools, path)
     for n, why in fails.items():
         vlib.log("[C17] replay %s: %s" % (n, why))
     if fails:
